@@ -153,8 +153,11 @@ def features(hier: dict, m: inherit.Model, exp: dict) -> tuple[set, bool]:
                     continue
                 if len(cs) > len(uids):
                     cls.add("same-object-twice")
-                    if c == "unit_groups" and any(u.startswith("twin:") for u in uids):
-                        cls.add("twin-unit-group")
+                    if c == "unit_groups":
+                        anc = m.ancestors(ln)
+                        for u in uids:
+                            if u.startswith("twin:") and sum(1 for a in anc if u in m.local(a, c).values()) >= 2:
+                                cls.add("twin-unit-group")   # equal but distinct objects, no clash
                 if len(uids) > 1:
                     top = max(x[0] for x in cs)
                     tops = {x[1] for x in cs if x[0] == top}
